@@ -104,7 +104,7 @@ def build_all(geos):
 def tlc(module, cfg=None, env=None, workers=1, xmx="3g", timeout=1800, deque=False, extra=()):
     d = tempfile.mkdtemp(prefix="tlc.", dir=WORK)
     e = dict(os.environ)
-    jto = "-Xss1g"
+    jto = "-Xss1g -Djava.io.tmpdir=" + d   # TLC's own scratch directory goes with the metadir (nothing is left in /tmp)
     if deque:
         jto += " -Dtlc2.tool.queue.IStateQueue=StateDeque"
     e["JAVA_TOOL_OPTIONS"] = jto
